@@ -9,6 +9,8 @@ SPEC = os.path.join(ROOT, "spec")
 # (a scratch worktree with a candidate change) gets its own copy of the harness
 # module with the replace directives rewritten, and its own build directory.
 REPO = os.environ.get("VERIF_REPO", "/repo").rstrip("/")
+# replay files of a run against another tree carry that tree's tag (concurrent trials must not overwrite each other)
+REPLAY_TAG = "" if REPO == "/repo" else "-" + __import__("hashlib").sha1(REPO.encode()).hexdigest()[:8]
 BUILD = os.path.join(ROOT, ".build") if REPO == "/repo" else os.path.join(
     "/tmp", "verif-build-" + hashlib.sha1(REPO.encode()).hexdigest()[:10])
 JAR = "/opt/veriftools/tla/tla2tools.jar:/opt/veriftools/tla/CommunityModules-deps.jar"
